@@ -19,7 +19,7 @@
   The theorems are proved for every linearly ordered field.
 
   What the real code rejects is modelled as `none`:
-    * `IsotropicSolidAngle.kappa/norm` setters raise unless `> 0`;
+    * `IsotropicSolidAngle.kappa` setter raises unless `> 0`, the `norm` setter unless `>= 0`;
     * `Eigenvector.eigvals` setter raises on an eigenvalue `< 0` whose size
       relative to the largest is `≥ 1e-12` (smaller ones are replaced by 0);
     * Sivia–Skilling `rate = n_accepted / n_iter` raises ZeroDivisionError for
@@ -129,8 +129,10 @@ def ssAlpha (c : SSCfg α) (n : Nat) (nIter : Nat) : α :=
   | .down => c.alphaDown (nIter - n)
   | .same => 1
 
-/-- Is the rescaling applied (`alpha * max <= cap`)? -/
+/-- Is the rescaling applied?  `alpha <= 1 or alpha * max <= cap`: a factor that does not
+    widen is always applied, the cap only limits widening. -/
 def ssAllowed {m : Nat} (c : SSCfg α) (a : α) (vals : Vector α m) : Bool :=
+  decide (a ≤ 1) ||
   match c.cap, vmax vals with
   | some cap, some mx => decide (a * mx ≤ cap)
   | _, _ => true
@@ -262,15 +264,19 @@ structure VmfIn (α : Type) where
   ar : α
   /-- oracle: `numpy.exp(_log_kappa)` -/
   ek : α
-  /-- oracle: `kappa / (4*pi*sinh(kappa))` as numpy evaluates it -/
+  /-- oracle: `kappa / (4*pi*sinh(kappa))` as numpy evaluates it (0 once `4 pi sinh kappa`
+      overflows, i.e. for kappa > 707.94) -/
   nm : α
 
 /-- `log κ += g * (target_rate - ar)`. -/
 def vmfLogKappa (g xi l ar : α) : α := l + g * (xi - ar)
 
+/-- The `kappa` setter raises unless `> 0`, the `norm` setter unless `>= 0` (the
+    normalisation may underflow to 0; it is not used for drawing, and `_logpdf` uses the
+    log-space `_lognormalisation`). -/
 def vmfBody (c : ATCfg α) (i : VmfIn α) (dk : Int) (s : VmfSt α) : Option (VmfSt α) :=
   if 0 < i.ek then
-    if 0 < i.nm then
+    if 0 ≤ i.nm then
       some { logKappa := vmfLogKappa (c.gain dk) c.xi s.logKappa i.ar, kappa := i.ek, norm := i.nm }
     else none
   else none
